@@ -71,10 +71,12 @@ Init == /\ queue = [i \in Ids |-> NoEntry]
 (* is sent only after every trace of the earlier user of that id has been discarded, and no        *)
 (* fragment of the earlier user is delivered afterwards (it is `retired`): with a 16-bit id and    *)
 (* no other frame identity on the wire, no receiver could tell such fragments apart.               *)
-Retire(f) == {g \in sent : Wid[g] = Wid[f]}
+(* A frame that fits one datagram is never queued: it may share its id with a frame that is still incomplete (another   *)
+(* sender on the same connection, or wrap-around) and must come through untouched, without touching that frame.         *)
+Retire(f) == IF NFrag[f] = 1 THEN {} ELSE {g \in sent : Wid[g] = Wid[f] /\ NFrag[g] > 1}
 Send(f) == /\ f \notin sent
-           /\ \A g \in sent : Wid[g] = Wid[f] => queue[Wid[f]] = NoEntry
-           /\ queue[Wid[f]] = NoEntry
+           /\ (NFrag[f] > 1 => (\A g \in sent : (Wid[g] = Wid[f] /\ NFrag[g] > 1) => queue[Wid[f]] = NoEntry))
+           /\ (NFrag[f] > 1 => queue[Wid[f]] = NoEntry)
            /\ sent' = sent \cup {f}
            /\ retired' = retired \cup Retire(f)
            /\ hist' = Append(hist, [op |-> "send", f |-> f, id |-> Wid[f], n |-> NFrag[f]])
